@@ -8,7 +8,7 @@ import unitlib as U
 from common import Str, sx
 
 ID = 'C07'
-LEAN_MODULES = ['Cellml.Props.C07', 'Cellml.Tie.Units', 'Cellml.Tie.UnitsLemmas']
+LEAN_MODULES = ['Cellml.Props.C07', 'Cellml.Tie.Units', 'Cellml.Tie.UnitsLemmas', 'Cellml.Tie.GenBUnits', 'Cellml.Props.C07Gen']
 N = {'quick': 60, 'thorough': 2000}
 RULE = ('random unit families (8-12 units: products/quotients/rational powers/scalings of built-ins, earlier user '
         'units, new base units, scaled dimensionless units; 1-3 stores with shared or separate registries); every '
